@@ -58,6 +58,9 @@ VALID = {
               '/* and a long identical tail ............................................ */ }',
     "M_mid2": 'def exp { /* a long comment that is the same in both revisions ........ */ splitters: uid return "m2" weighted 3, "x" weighted 1 '
               '/* and a long identical tail ............................................ */ }',
+    "R_name1": 'def recompile { splitters: uid return "r1" weighted 1, "r2" weighted 1 }',
+    "R_name2": 'def recompile { salt: "other" splitters: uid return "r3" weighted 1, "r4" weighted 1 }',
+    "R_name3": 'def run_experiment { splitters: uid return "r5" weighted 1, "r6" weighted 1 }',
     "U_cafe": 'def exp { splitters: uid return "caf\u00e9" weighted 1, "x" weighted 1 }',
     "F_shared": 'def exp { splitters: uid, plan if plan in ("pro", "max") { return 1 weighted 1, 2 weighted 1 } else '
                 '{ return 0.5 weighted 1 } }',
@@ -154,9 +157,21 @@ class Lifecycle:
         failing = 0
         for step, (op, slot, name) in enumerate(ops):
             text = TEXTS[name]
-            if op == "recompile" and slot not in slots:
+            if op in ("recompile", "copy") and slot not in slots:
                 op = "new"
             raised = None
+            if op == "copy":
+                # a copy taken now is an evaluator of whatever the original holds now (slot + 10 is the copy's slot)
+                import copy as _copy
+
+                try:
+                    dup = (_copy.copy if step % 2 else _copy.deepcopy)(slots[slot])
+                    slots[slot + 10], model[slot + 10] = dup, model[slot]
+                    ctx.count("copies")
+                except Exception:  # noqa: BLE001
+                    ctx.count("copy-not-supported")
+                trace.append((op, slot, name, None))
+                continue
             if op == "new":
                 c = im.construct(text)
                 if c[0] == "ok":
@@ -291,6 +306,17 @@ def run(ctx):
                 continue
             lc.run_history([("new", 1, "A")] + [("recompile", 0, t) for t in seq], "exhaustive3")
     # late failures other than a keyword: unencodable text, nesting beyond the Python compiler's limits
+    # copies taken at different moments of a recompile history
+    for seq in itertools.permutations(["A", "A_weights", "B_name", "bad_char"], 3):
+        idx += 1
+        if ctx.mine(idx):
+            ops = [("new", 0, seq[0]), ("recompile", 0, seq[1]), ("copy", 0, seq[1]), ("recompile", 0, seq[2]), ("copy", 0, seq[2]),
+                   ("recompile", 10, seq[0])]
+            lc.run_history(ops, "copies")
+    for seq in itertools.permutations(["R_name1", "R_name2", "R_name3", "A", "bad_char"], 3):
+        idx += 1
+        if ctx.mine(idx):
+            lc.run_history([("new", 1, "R_name1")] + [("recompile", 0, t) for t in seq], "evaluator-attribute-names")
     alpha5 = ["U_cafe", "late_surrogate", "late_deep_not", "late_deep_if", "C_fields"]
     for L in range(1, 4 if not ctx.quick() else 3):
         for seq in itertools.product([(op, t) for op in ("new", "recompile") for t in alpha5], repeat=L):
